@@ -36,7 +36,7 @@ def selection(ck, ctx):
     def empty_edges(field):
         def pred(e):
             e = strip(e)
-            if e[0] == "call" and e[1].endswith("Vec::is_empty") and field_chain(strip(e[2][0]))[1][-1:] == [field]:
+            if e[0] == "call" and e[1].endswith("Vec::is_empty") and C.names_field(e[2][0], field):
                 return True
             return False
         g = C.bool_gate_edges(ctx, b, pred)
@@ -61,7 +61,7 @@ def selection(ck, ctx):
             kinds.setdefault("target", []).append((bb, t))
             ok = Q.gated(cfg, bb, t_some)[0]
             ck.ob("selection", "target-want", ok, "want_file(lookup(name)) happens only when targets were named", span=t["loc"], fn=BUILD)
-        elif any(field_chain(strip(y))[1][-1:] == ["default"] for y in walk(e) if y[0] == "field"):
+        elif any(C.names_field(y, "default") for y in walk(e) if y[0] in ("field", "phi")):
             kinds.setdefault("default", []).append((bb, t))
             ok = Q.gated(cfg, bb, t_empty)[0] and Q.gated(cfg, bb, d_some)[0]
             ck.ob("selection", "default-want", ok, "want_file(default) happens only when no target was named and defaults exist", span=t["loc"], fn=BUILD)
